@@ -191,6 +191,38 @@ def direct_cases(out):
         if got != want:
             out.violation("shared-object:" + name.split(",")[0].replace(" ", "-")[:40], f"{name}: verdicts {got} but every leaf POSITION has its own '?n' axis, so they must be {want}", {"direct": "shared-object"})
 
+    # RE-ENTRANCY: while a leaf is being checked, user code that the check calls back (the leaf's `.shape`, a registered
+    # node's flatten function) makes a complete decorated call of its own — the leaf's `?` label is the enclosing leaf's
+    # again when that call has returned
+    @jaxtyped(typechecker=None)
+    def _helper_shape(shape: tuple):
+        with jaxtyped("context"):
+            isinstance(Duck((1,)), Float[Duck, "inner"])
+        return shape
+
+    class Boxed:
+        dtype = "float32"
+
+        def __init__(self, shape):
+            self._shape = shape
+
+        @property
+        def shape(self):
+            return _helper_shape(self._shape)
+
+    QB, QBV = PyTree[Float[Boxed, "?n"], "T"], PyTree[Float[Boxed, "*?n"], "T"]
+    reent = [
+        ("re-entrant call from .shape, agreeing trees", [({"a": Boxed((3,)), "b": Boxed((4,))}, QB), ({"a": Boxed((3,)), "b": Boxed((4,))}, QB)], ["T", "T"]),
+        ("re-entrant call from .shape, sizes swapped", [({"a": Boxed((3,)), "b": Boxed((4,))}, QB), ({"a": Boxed((4,)), "b": Boxed((3,))}, QB)], ["T", "F"]),
+        ("re-entrant call from .shape, multi-axis", [((Boxed((2, 3)), Boxed((4,))), QBV), ((Boxed((2, 3)), Boxed((5,))), QBV)], ["T", "F"]),
+    ]
+    for name, pairs, want in reent:
+        got = seq(*pairs)
+        out.case(("re-entrant", name), True, sample={"case": name, "verdicts": got})
+        if got != want:
+            out.violation("re-entrant", f"{name}: verdicts {got}, must be {want} — a decorated call made (and finished) by the leaf's own `.shape` while the leaf is being checked "
+                          f"does not take the leaf's `?` label away", {"direct": "re-entrant"})
+
     # the structure name is a name however it is SPELLED (blanks before and after are not part of it): two trees bound to
     # the same name share their `?` axes position by position under every pair of spellings
     for ax in ("?n", "*?n", "2 ?n"):
